@@ -181,6 +181,9 @@ func (s *formatFMP4Segment) closeCurPart() error {
 			return err
 		}
 
+		// from now on, close() must complete the segment, even when writing fails
+		s.fi = fi
+
 		s.f.ri.onSegmentCreate(s.path)
 
 		err = writeInit(
@@ -191,11 +194,8 @@ func (s *formatFMP4Segment) closeCurPart() error {
 			s.startNTP,
 			s.f.tracks)
 		if err != nil {
-			fi.Close()
 			return err
 		}
-
-		s.fi = fi
 	}
 
 	return s.curPart.close(s.fi)
